@@ -499,8 +499,17 @@ pub mod winapi {
         if old.is_null() {
             return 0; // ERROR_NOACCESS: lpflOldProtect must be valid
         }
+        // lpflOldProtect receives the previous protection of the FIRST page of the range
+        let prev = with_world(|w| w.prot_at(addr as u64));
         let r = with_world(|w| w.sys_mprotect(addr as u64, size as u64, bits));
-        *old = 0x20;
+        *old = match prev.unwrap_or(5) & 7 {
+            0 => 0x01,
+            1 => 0x02,
+            3 | 2 => 0x04,
+            4 => 0x10,
+            5 => 0x20,
+            _ => 0x40,
+        };
         if r == 0 {
             1
         } else {
@@ -508,15 +517,59 @@ pub mod winapi {
         }
     }
     pub unsafe fn VirtualAlloc(addr: *mut c_void, size: usize, ty: u32, prot: u32) -> *mut c_void {
-        // reserving without committing gives inaccessible pages; anything else than
-        // MEM_COMMIT [| MEM_RESERVE] for a fresh address is refused
         let bits = match prot_bits(prot) {
             Some(b) => b,
             None => return std::ptr::null_mut(),
         };
-        if ty & MEM_COMMIT == 0 || ty & !(MEM_COMMIT | MEM_RESERVE) != 0 || ty & MEM_RESERVE == 0 {
+        if ty & !(MEM_COMMIT | MEM_RESERVE) != 0 || ty == 0 {
             return std::ptr::null_mut();
         }
+        if ty == MEM_COMMIT {
+            // committing pages of an existing reservation: may be refused like any request for
+            // memory (commit limit), and then the reservation is still there
+            let r = with_world(|w| {
+                let idx = w.counters.mmap_calls;
+                w.counters.mmap_calls += 1;
+                if w.policy.fail_mmap_all || w.policy.fail_mmap.binary_search(&idx).is_ok() {
+                    w.counters.mmap_injected_fail += 1;
+                    w.counters.mmap_failed += 1;
+                    return u64::MAX;
+                }
+                let ps = w.page_size;
+                let a0 = addr as u64 & !(ps - 1);
+                let a1 = (addr as u64 + size.max(1) as u64 + ps - 1) & !(ps - 1);
+                let inside = match w.region_at(a0) {
+                    Some((_, r)) => r.owner == crate::world::Owner::Injector && {
+                        // the range may span pieces of one allocation (split by earlier commits)
+                        let serial = r.serial;
+                        let mut cur = a0;
+                        let mut ok = true;
+                        while cur < a1 {
+                            match w.region_at(cur) {
+                                Some((_, q)) if q.serial == serial => cur = q.end,
+                                _ => {
+                                    ok = false;
+                                    break;
+                                }
+                            }
+                        }
+                        ok
+                    },
+                    None => false,
+                };
+                if !inside {
+                    w.counters.mmap_failed += 1;
+                    return u64::MAX;
+                }
+                if w.sys_mprotect_opt(a0, a1 - a0, bits, false) != 0 {
+                    return u64::MAX;
+                }
+                a0
+            });
+            return if r == u64::MAX { std::ptr::null_mut() } else { r as *mut c_void };
+        }
+        // MEM_RESERVE alone gives inaccessible pages; with MEM_COMMIT they get the protection
+        let bits = if ty & MEM_COMMIT == 0 { 0 } else { bits };
         let r = with_world(|w| w.sys_mmap(addr as u64, size as u64, bits, -1));
         if r == u64::MAX {
             std::ptr::null_mut()
@@ -529,7 +582,27 @@ pub mod winapi {
         if ty != MEM_RELEASE || size != 0 {
             return 0;
         }
-        let len = with_world(|w| w.regions.get(&(addr as u64)).map(|r| r.end - addr as u64));
+        let len = with_world(|w| {
+            let first = w.regions.get(&(addr as u64))?;
+            if first.owner != crate::world::Owner::Injector {
+                return Some(first.end - addr as u64);
+            }
+            let serial = first.serial;
+            // an allocation base is where its serial begins
+            if let Some((_, p)) = w.regions.range(..addr as u64).next_back() {
+                if p.end == addr as u64 && p.serial == serial && p.owner == first.owner {
+                    return None;
+                }
+            }
+            let mut end = first.end;
+            while let Some(q) = w.regions.get(&end) {
+                if q.serial != serial {
+                    break;
+                }
+                end = q.end;
+            }
+            Some(end - addr as u64)
+        });
         match len {
             Some(l) => {
                 with_world(|w| w.sys_munmap(addr as u64, l));
